@@ -170,21 +170,54 @@ theorem forall2_fix (stab : Op) (pos f o : Nat) (hs : Sem.ValidOp stab) (ψ : QS
       · rw [he]; exact hst a (by simp)
       · exact h3 (fun x hx => hst x (by simp [hx])) t ht
 
-/-! ### the loop of `_reduce_terms` (arithmetic without pruning: `tol = 0`) -/
+/-! ### the executable exact-regime predicates -/
 
-/-- the body of the `for i, _ in enumerate(stabilizer_list)` loop as the Model executes it -/
-def redBody (tol : Rat) (manual : Bool) (acc : Op × LoopState) (i : Nat) : Except Err (Op × LoopState) := do
-  let st := { acc.2 with terms := acc.1.map fun e => [e] }
-  let st' ← loopStep tol manual i st
-  let newOp := st'.terms.foldl (fun o t => Model.iadd tol o t) []
-  .ok (newOp, st')
+theorem exactAddB_sound (tol : Rat) : ∀ (b a : Op), exactAddB tol a b = true → ExactAdd tol a b := by
+  intro b
+  induction b with
+  | nil => intro a _; trivial
+  | cons e r ih =>
+    intro a h
+    obtain ⟨t, c⟩ := e
+    simp only [exactAddB, Bool.and_eq_true, Bool.or_eq_true, Bool.not_eq_true', decide_eq_true_eq] at h
+    refine ⟨?_, ih _ h.2⟩
+    intro hs
+    rcases h.1 with h1 | h1
+    · rw [h1] at hs; cases hs
+    · exact h1
+
+theorem evOp_fold_iadd (tol : Rat) (L : List Op) (acc : Op) (h : exactSumB tol acc L = true) :
+    evOp (L.foldl (fun o t => Model.iadd tol o t) acc) = evOp acc + sumEv L := by
+  induction L generalizing acc with
+  | nil => simp [sumEv]
+  | cons t r ih =>
+    simp only [exactSumB, Bool.and_eq_true] at h
+    simp only [List.foldl_cons, sumEv, List.map_cons, List.sum_cons] at ih ⊢
+    rw [ih _ h.2, evOp_iadd tol _ _ (exactAddB_sound tol t acc h.1), add_assoc]
+
+theorem exactAddB_zero : ∀ (b a : Op), exactAddB 0 a b = true := by
+  intro b
+  induction b with
+  | nil => intro a; rfl
+  | cons e r ih =>
+    intro a
+    obtain ⟨t, c⟩ := e
+    simp [exactAddB, isSmall_zero, ih]
+
+theorem exactSumB_zero : ∀ (L : List Op) (acc : Op), exactSumB 0 acc L = true := by
+  intro L
+  induction L with
+  | nil => intro acc; rfl
+  | cons t r ih => intro acc; simp [exactSumB, exactAddB_zero, ih]
+
+/-! ### the loop of `_reduce_terms` -/
 
 theorem reduceTerms_eq (tol : Rat) (terms : Op) (stabs : List Op) (manual : Bool) (fixed : List Nat) :
     reduceTerms tol terms stabs manual fixed
       = (do
-          let r ← (List.range stabs.length).foldlM (redBody tol manual)
-            (terms, ⟨[], stabs, if manual then fixed else [], none, false⟩)
-          .ok (r.1, r.2.fixed, r.2.stale)) := rfl
+          let r ← (List.range stabs.length).foldlM (redBodyX tol manual)
+            ((terms, ⟨[], stabs, if manual then fixed else [], none, false⟩), true)
+          .ok (r.1.1, r.1.2.fixed, r.1.2.stale, r.2)) := rfl
 
 def Inv (ψ : QS) (T : Module.End GQ QS) (acc : Op × LoopState) : Prop :=
   Sem.ValidOp acc.1 ∧ (∀ s ∈ acc.2.stabs, Sem.ValidOp s ∧ evOp s ψ = ψ) ∧ evOp acc.1 ψ = T ψ
@@ -197,16 +230,18 @@ theorem singletons_valid (A : Op) (h : Sem.ValidOp A) : ∀ t ∈ A.map (fun e =
   rw [hx]
   exact h e he
 
-theorem redBody_inv (manual : Bool) (i : Nat) (ψ : QS) (T : Module.End GQ QS) (acc acc' : Op × LoopState)
-    (h : redBody 0 manual acc i = .ok acc') (hI : Inv ψ T acc) : Inv ψ T acc' := by
+theorem redBody_inv (tol : Rat) (manual : Bool) (i : Nat) (ψ : QS) (T : Module.End GQ QS)
+    (acc acc' : Op × LoopState) (h : redBody tol manual acc i = .ok acc')
+    (hex : exactSumB tol [] acc'.2.terms = true) (hI : Inv ψ T acc) : Inv ψ T acc' := by
   obtain ⟨hv, hst, hev⟩ := hI
   unfold redBody at h
-  cases hl : loopStep 0 manual i { acc.2 with terms := acc.1.map fun e => [e] } with
+  cases hl : loopStep tol manual i { acc.2 with terms := acc.1.map fun e => [e] } with
   | error e => simp [hl, bind, Except.bind] at h
   | ok st' =>
     simp only [hl, bind, Except.bind, Except.ok.injEq] at h
     subst h
-    rcases loopStep_spec 0 manual i _ st' hl with ⟨h1, _, h3, h4⟩ | ⟨stab0, pos, fop, other, hs, hap⟩
+    simp only at hex
+    rcases loopStep_spec tol manual i _ st' hl with ⟨h1, _, h3, h4⟩ | ⟨stab0, pos, fop, other, hs, hap⟩
     · simp only at h1
       have ha : acc.1 = [] := by simpa using h1
       refine ⟨?_, ?_, ?_⟩
@@ -215,31 +250,40 @@ theorem redBody_inv (manual : Bool) (i : Nat) (ψ : QS) (T : Module.End GQ QS) (
       · simp only [h3, List.foldl_nil]
         rw [← hev, ha]
     · simp only at hs hap
-      obtain ⟨f1, f2⟩ := applyFix_spec 0 pos fop other stab0 _ _ _ _ hap
+      obtain ⟨f1, f2⟩ := applyFix_spec tol pos fop other stab0 _ _ _ _ hap
       have hs0 := hst stab0 (by rw [hs]; simp)
       have r1 := forall2_fix stab0 pos fop other hs0.1 ψ hs0.2 _ _ f1 (singletons_valid acc.1 hv)
       have r2 := forall2_fix stab0 pos fop other hs0.1 ψ hs0.2 _ _ f2
         (fun t ht => (hst t (by rw [hs]; simp [ht])).1)
       refine ⟨?_, ?_, ?_⟩
-      · exact fold_iadd_valid 0 _ _ Sem.validOp_nil r1.1
+      · exact fold_iadd_valid tol _ _ Sem.validOp_nil r1.1
       · intro s hsm
         exact ⟨r2.1 s hsm, r2.2.2 (fun t ht => (hst t (by rw [hs]; simp [ht])).2) s hsm⟩
       · simp only
-        rw [fold_iadd_zero, evOp_nil, zero_add, r1.2.1, sumEv_singletons, hev]
+        rw [evOp_fold_iadd tol _ _ hex, evOp_nil, zero_add, r1.2.1, sumEv_singletons, hev]
 
-theorem foldlM_inv (manual : Bool) (ψ : QS) (T : Module.End GQ QS) :
-    ∀ (l : List Nat) (acc r : Op × LoopState), l.foldlM (redBody 0 manual) acc = .ok r → Inv ψ T acc → Inv ψ T r := by
+/-- the invariant through the whole loop, provided the exactness flag comes out `true` -/
+theorem foldlM_inv (tol : Rat) (manual : Bool) (ψ : QS) (T : Module.End GQ QS) :
+    ∀ (l : List Nat) (acc r : Op × LoopState) (b b' : Bool),
+    l.foldlM (redBodyX tol manual) (acc, b) = .ok (r, b') →
+    b' = true → b = true ∧ (Inv ψ T acc → Inv ψ T r) := by
   intro l
   induction l with
-  | nil => intro acc r h hI; simp [List.foldlM_nil, pure, Except.pure] at h; subst h; exact hI
+  | nil =>
+    intro acc r b b' h hb
+    simp only [List.foldlM_nil, pure, Except.pure, Except.ok.injEq, Prod.mk.injEq] at h
+    obtain ⟨rfl, rfl⟩ := h
+    exact ⟨hb, id⟩
   | cons i l ih =>
-    intro acc r h hI
+    intro acc r b b' h hb
     rw [List.foldlM_cons] at h
-    cases hb : redBody 0 manual acc i with
-    | error e => simp [hb, bind, Except.bind] at h
+    cases hbody : redBody tol manual acc i with
+    | error e => simp [redBodyX, hbody, bind, Except.bind] at h
     | ok acc' =>
-      simp only [hb, bind, Except.bind] at h
-      exact ih acc' r h (redBody_inv manual i ψ T acc acc' hb hI)
+      simp only [redBodyX, hbody, bind, Except.bind] at h
+      obtain ⟨h1, h2⟩ := ih acc' r (b && exactSumB tol [] acc'.2.terms) b' h hb
+      simp only [Bool.and_eq_true] at h1
+      exact ⟨h1.1, fun hI => h2 (redBody_inv tol manual i ψ T acc acc' hbody h1.2 hI)⟩
 
 end C16P
 end OFV
